@@ -246,6 +246,7 @@ func (c *TTYCodec) doInlineContent(ops []InlineOp, heading bool) {
 		}
 	}
 
+	kbdDepth := 0
 	for _, op := range ops {
 		switch op.Type {
 		case OpText:
@@ -254,8 +255,13 @@ func (c *TTYCodec) doInlineContent(ops []InlineOp, heading bool) {
 			switch op.Text {
 			case "<kbd>":
 				stylings.push(ui.Inverse)
+				kbdDepth++
 			case "</kbd>":
-				stylings.pop()
+				// Ignore a </kbd> without a matching <kbd>.
+				if kbdDepth > 0 {
+					stylings.pop()
+					kbdDepth--
+				}
 			}
 		case OpNewLine:
 			if heading || c.Width > 0 {
